@@ -22,6 +22,8 @@ type shape struct {
 	MutEph bool   `json:"mutEph"`
 	Wcode  string `json:"wcode"`
 	Wst    string `json:"wst"`
+	Conv   string `json:"conv"`   // "none" | target of the conversion the write kind performs first
+	MutConv bool  `json:"mutConv"` // the model's outcome if the conversion guard were missing
 }
 
 func (s shape) id() string {
@@ -49,6 +51,8 @@ var pathExpr = map[string]string{
 	"arrPtr": "victim.GetArrPtr()", "addrGArr": "&victim.GArr",
 	"getBox": "victim.GetBox()", "gb": "victim.GB", "fieldB": "victim.GetT().B",
 	"gi": "victim.GI",
+	"getStrs": "victim.GetStrs()", "gstr": "victim.GStr", "getFloats": "victim.GetFloats()", "gfl": "victim.GFl",
+	"getScores": "victim.GetScores()", "gscores": "victim.GScores",
 }
 
 var pathTyp = map[string]string{}
@@ -67,13 +71,16 @@ func init() {
 	set("ptrArr", "arrPtr", "addrGArr")
 	set("ptrBox", "getBox", "gb", "fieldB", "cbBox")
 	set("intv", "gi")
-	set("ctl", "setter", "bumper", "bump", "zero")
+	set("ctl", "setter", "bumper", "bump", "zero", "swapown")
+	set("sliceStr", "getStrs", "gstr")
+	set("sliceFl", "getFloats", "gfl")
+	set("namedInts", "getScores", "gscores")
 	set("ctor", "ctor")
 	set("pcur", "pcur")
 }
 
 var typeName = map[string]string{
-	"ptrT": "*victim.T", "valT": "victim.T", "sliceInt": "[]int", "mapSI": "map[string]int", "ptrInt": "*int", "ptrArr": "*[3]int", "ptrBox": "*lib.Box", "intv": "int",
+	"ptrT": "*victim.T", "valT": "victim.T", "sliceInt": "[]int", "mapSI": "map[string]int", "ptrInt": "*int", "ptrArr": "*[3]int", "ptrBox": "*lib.Box", "intv": "int", "sliceStr": "[]string", "sliceFl": "[]float64", "namedInts": "victim.Scores",
 }
 
 // write statement(s) on handle expression h with the fresh value v
@@ -94,6 +101,20 @@ func writeStmt(wk, h string, v int) (string, error) {
 		"bV": "@H.V = @V", "bTags": "@H.Tags[0] = @S", "bKids": "@H.Kids[`z`] = @V", "bDel": "delete(@H.Kids, `k`)", "bWhole": "*@H = lib.Box{V: @V}", "bInc": "@H.V++",
 		"boxSet": "@H.Set(@V)", "boxTag": "@H.Tag(0, @S)", "boxPut": "@H.Put(`z`, @V)", "boxMV": "f := @H.Set\nf(@V)", "boxDeferSet": "defer @H.Set(@V)",
 		"iSet": "@H = @V", "iInc": "@H++", "iOp": "@H += @V",
+		"ssIdx": "@H[0] = @S", "flIdx": "@H[0] = 0.25", "nsIdx": "@H[0] = @V",
+		// convert the victim-owned handle to another type, then write through the converted value
+		"cvSortSwap": "sort.IntSlice(@H).Swap(0, 1)", "cvSortRev": "sort.Sort(sort.Reverse(sort.IntSlice(@H)))", "cvSortInts": "sort.Ints(@H)",
+		"cvLibSet": "lib.Ints(@H).Set(0, @V)", "cvLibSwap": "lib.Ints(@H).Swap(0, 1)", "cvLibIdx": "lib.Ints(@H)[0] = @V",
+		"cvLibMapPut": "lib.IntMap(@H).Put(`z`, @V)", "cvLibMapDel": "lib.IntMap(@H).Del(`a`)",
+		"cvLibArrSet": "(*lib.Arr3)(@H).Set(0, @V)", "cvLibArrIdx": "(*lib.Arr3)(@H)[0] = @V",
+		"cvLibTwinSet": "(*lib.Twin)(@H).SetV(@V)", "cvLibTwinField": "(*lib.Twin)(@H).V = @V", "cvLibTwinVal": "lib.Twin(*@H).Tag(0, @S)",
+		"cvStrSwap": "sort.StringSlice(@H).Swap(0, 1)", "cvStrSort": "sort.Strings(@H)",
+		"cvFlSwap": "sort.Float64Slice(@H).Swap(0, 1)", "cvFlSort": "sort.Float64s(@H)",
+		"cvNamedSortSwap": "sort.IntSlice(@H).Swap(0, 1)",
+		"cvOwnSet": "myInts(@H).Set(0, @V)", "cvOwnSetP": "x := myInts(@H)\nx.SetP(0, @V)", "cvOwnIdx": "myInts(@H)[0] = @V", "cvOwnSort": "sort.Sort(myInts(@H))",
+		"cvOwnMapPut": "myMap(@H).Put(`z`, @V)", "cvOwnMapIdx": "myMap(@H)[`z`] = @V",
+		"cvOwnArrSet": "(*myArr)(@H).Set(0, @V)", "cvOwnTwinSet": "(*myTwin)(@H).SetV(@V)",
+		"cvUnnamedIdx": "[]int(@H)[0] = @V", "cvUnnamedSort": "sort.Ints([]int(@H))",
 		// construction of victim-declared types in attacker code (must fail)
 		"cLit": "x := victim.T{N: @V}\n_ = x", "cPtr": "x := &victim.T{N: @V}\n_ = x", "cNew": "x := new(victim.T)\n_ = x",
 		"cInner": "x := victim.Inner{N: @V}\n_ = x", "cConv": "x := victim.Inner(struct {\n\tN    int\n\tTags []string\n}{N: @V})\n_ = x",
@@ -122,6 +143,8 @@ func ctlStmt(path string, v int) string {
 		return "victim.GetT().Bump()"
 	case "zero":
 		return "victim.Zero(cross(cur), victim.GetSlice())"
+	case "swapown":
+		return "victim.SwapOwn()"
 	}
 	return ""
 }
@@ -140,9 +163,45 @@ func indent(s string, n int) string {
 	return strings.Join(ls, "\n") + "\n"
 }
 
+// types the attacker declares next to its code: same underlying types as the victim's data, mutating methods
+const ownDecls = `type myInts []int
+
+func (m myInts) Len() int           { return len(m) }
+func (m myInts) Less(i, j int) bool { return m[i] > m[j] }
+func (m myInts) Swap(i, j int)      { m[i], m[j] = m[j], m[i] }
+func (m myInts) Set(i, v int)       { m[i] = v }
+func (m *myInts) SetP(i, v int)     { (*m)[i] = v }
+
+type myMap map[string]int
+
+func (m myMap) Put(k string, v int) { m[k] = v }
+
+type myArr [3]int
+
+func (a *myArr) Set(i, v int) { a[i] = v }
+
+type myTwin struct {
+	V    int
+	Tags []string
+	Kids map[string]int
+}
+
+func (t *myTwin) SetV(v int) { t.V = v }
+
+`
+
+var reOwn = regexp.MustCompile(`(^|[^A-Za-z0-9_])my(Ints|Map|Arr|Twin)\b`)
+var reSort = regexp.MustCompile(`(^|[^A-Za-z0-9_.])sort\.`)
+
 // file assembles a Gno file: package clause, the imports the body actually mentions, body.
 func file(pkgName, body string, extra map[string]string) string {
+	if reOwn.MatchString(body) {
+		body = ownDecls + body
+	}
 	var imps []string
+	if reSort.MatchString(body) {
+		imps = append(imps, "sort")
+	}
 	if strings.Contains(body, "lib.") {
 		imps = append(imps, libPath)
 	}
